@@ -306,6 +306,7 @@ def r6_strip_details_bounds(ctx):
             c = n.ast.value
             needle = c.args[0].value if c.args and isinstance(c.args[0], ast.Constant) else None
             searches.append((n, c, needle, n.ast.targets[0].id))
+    _last_dot_confined(ctx, f, g, rd, q, msg)
     if len(searches) < 3:
         return _strip_details_cut_chain(ctx, f, g, rd, q, msg)
     by = {needle: (n, c, var) for (n, c, needle, var) in searches}
@@ -353,6 +354,45 @@ def r6_strip_details_bounds(ctx):
         rep.ob('C03.R6', ctx.loc(f, d.node.ast), ctx.src(d.node.ast), guarded and shape,
                '%s, only when the search succeeded' % what if guarded and shape else
                ('the window is narrowed although the search may have failed (-1)' if not guarded else 'unexpected window update (%s expected)' % what), anchor=q)
+
+
+def _last_dot_confined(ctx, f, g, rd, q, msg):
+    """idiom-independent necessary condition: whatever way the class name is cut out, the search for the LAST dot must only see the text
+    before the first colon (a dot in the message -- a float, a file name, '...' -- must not move the start of the name)"""
+    rep = ctx.rep
+
+    def colon_derived(node, e, depth=0):
+        """the value of e at node is (bounded by) the result of a first-colon search / cut"""
+        if depth > 6 or e is None:
+            return False
+        if isinstance(e, ast.Call) and isinstance(e.func, ast.Attribute) and e.func.attr in ('find', 'index', 'partition', 'split') and e.args and isinstance(e.args[0], ast.Constant) and e.args[0].value == ':':
+            return True
+        if isinstance(e, ast.Subscript):
+            return colon_derived(node, e.value, depth + 1) or (isinstance(e.slice, ast.Slice) and (colon_derived(node, e.slice.upper, depth + 1)))
+        if isinstance(e, ast.Name):
+            ds = [d for d in rd.at(node, e.id) if d.kind != 'param']
+            # at least one reaching definition comes from the colon search (the others are the "not found" defaults)
+            return any(isinstance(d.value, ast.AST) and colon_derived(d.node, d.value, depth + 1) for d in ds) or \
+                any(isinstance(d.value, tuple) and isinstance(d.value[1], ast.AST) and colon_derived(d.node, d.value[1], depth + 1) for d in ds)
+        if isinstance(e, ast.IfExp):
+            return colon_derived(node, e.body, depth + 1) or colon_derived(node, e.orelse, depth + 1)
+        return False
+    n_ops = 0
+    for n in g.nodes:
+        if n.dup or n.kind not in ('stmt', 'test'):
+            continue
+        for c in node_calls(n):
+            if isinstance(c.func, ast.Attribute) and c.func.attr in ('rfind', 'rindex', 'rpartition', 'rsplit') and c.args and isinstance(c.args[0], ast.Constant) and c.args[0].value == '.':
+                n_ops += 1
+                if c.func.attr in ('rfind', 'rindex') and len(c.args) >= 3:
+                    ok = colon_derived(n, c.args[2])
+                else:
+                    ok = colon_derived(n, c.func.value)
+                rep.ob('C03.R6', ctx.loc(f, c), 'last-dot search ' + ctx.src(c), ok,
+                       'confined to the text before the first colon' if ok else
+                       'the last dot is searched in text that still contains the message: a dot after the colon (`ValueError: invalid ratio 3.5`) moves the start of the class name, the stripped name '
+                       'becomes empty and -- an empty want matches everything -- a wrong exception type passes under IGNORE_EXCEPTION_DETAIL', anchor=q)
+    rep.floor('C03.R6', 'last-dot operations in _strip_exception_details', n_ops, 1)
 
 
 def _cut_of(call_sub):
@@ -427,6 +467,7 @@ from ..selftest import fire, silent      # noqa: E402
 DE = 'xdoctest/doctest_example.py'
 CK = 'xdoctest/checker.py'
 VARIANTS = [
+    fire('last-dot-searched-in-whole-line', 'C03.R6', (CK, "    i = msg.rfind('.', 0, end)\n", "    i = msg.rfind('.', 0, len(msg))\n")),
     fire('return-true-on-non-traceback-want', 'C03.R2a',
          (CK, "        # Reraise the error if the want message is formatted like an exception\n        raise\n",
               "        # Reraise the error if the want message is formatted like an exception\n        return True\n")),
